@@ -13,7 +13,7 @@ use std::collections::BTreeSet;
 pub const DEF: PropDef = PropDef {
     id: "C10",
     level: "exploration",
-    rule: "all programs that build a dictionary from every ordered selection of k=2 keys, of k=3 keys (quick: out of the first 7 keys; thorough: all, and k=4) out of {\"p\",\"q\",\"r\",true,null,mysterious,\"true\",\"null\",\"9\",\"10\",\"1a\",\"\"} and then apply one of 47 operations (join with/without delimiter, join with a non-string value at each key position, print, compare, copy, every erroring statement whose message renders the array, the array as delimiter / radix / key / callee / element of another array), plus a parse/lint/runtime-error corpus; plus the confusable-keys family (pairs / triples of keys that truncation at 7..1000 characters, case folding, trimming, normalisation, numeric reading or escaping would merge, every insertion order); plus histories (all ordered pairs of 70 programs (incl. tiny programs whose words are aligned but differ in being keywords) copied into one reused buffer and run one after the other on one thread: the second must behave as it does alone); each program is run under hash seeds 0,1,2,... in fresh threads until every one of the k! iteration orders of its dictionary has been observed (cap 64 / 600 seeds); stdout, result, error text, parse errors and lint reports must be byte-identical across all runs; non-trivial = at least two different iteration orders were actually exercised for the program; distinct = distinct program text",
+    rule: "all programs that build a dictionary from every ordered selection of k=2 keys, of k=3 keys (quick: out of the first 7 keys and, separately, out of the 5 number-like and empty string keys; thorough: all, and k=4) out of {\"p\",\"q\",\"r\",true,null,mysterious,\"true\",\"null\",\"9\",\"10\",\"1a\",\"\"} and then apply one of 47 operations (join with/without delimiter, join with a non-string value at each key position, print, compare, copy, every erroring statement whose message renders the array, the array as delimiter / radix / key / callee / element of another array), plus a parse/lint/runtime-error corpus; plus the confusable-keys family (pairs / triples of keys that truncation at 7..1000 characters, case folding, trimming, normalisation, numeric reading or escaping would merge, every insertion order); plus histories (all ordered pairs of 70 programs (incl. tiny programs whose words are aligned but differ in being keywords) copied into one reused buffer and run one after the other on one thread: the second must behave as it does alone); each program is run under hash seeds 0,1,2,... in fresh threads until every one of the k! iteration orders of its dictionary has been observed (cap 64 / 600 seeds); stdout, result, error text, parse errors and lint reports must be byte-identical across all runs; non-trivial = at least two different iteration orders were actually exercised for the program; distinct = distinct program text",
     assumptions: &[
         "seed control relies on std resolving getrandom through a weak symbol; ./check selftest fails loudly if the same seed stops giving the same order or different seeds stop giving different orders",
         "a dictionary whose orders were not all reached within the seed cap is reported in the evidence as partially covered",
@@ -99,7 +99,12 @@ pub fn dict_programs_over(k: usize, nkeys: usize) -> Space<(String, usize)> {
         s.len() == v.len()
     });
     let ops: Space<&'static str> = Space::of(OPS.to_vec());
-    sel.product(&ops, move |ks, op| {
+    sel.product(&ops, move |ks, op| dict_program_text(&ks, op))
+}
+
+fn dict_program_text(ks: &[usize], op: &str) -> (String, usize) {
+    let k = ks.len();
+    {
         let mut t = String::new();
         for (i, key) in ks.iter().enumerate() {
             t.push_str(&format!("let x at {} be \"v{}\"\n", KEYS[*key], i));
@@ -113,11 +118,24 @@ pub fn dict_programs_over(k: usize, nkeys: usize) -> Space<(String, usize)> {
         let op = op.replace("@K0", KEYS[ks[0]]).replace("@K1", KEYS[ks[1]]).replace("@KL", KEYS[ks[ks.len() - 1]]);
         t.push_str(&op);
         (t, k)
-    })
+    }
 }
 
 fn build(tier: Tier) -> Box<dyn Check> {
     let mut fams = vec![("dictionary k=2".to_string(), dict_programs(2)), ("dictionary k=3".to_string(), if tier == Tier::Thorough { dict_programs(3) } else { dict_programs_over(3, 7) })];
+    if tier != Tier::Thorough {
+        // the quick tier takes its triples from the first seven keys; the number-like and empty string keys
+        // (comparators that read them as numbers) get their own triples
+        let tail: Vec<usize> = (7..KEYS.len()).collect();
+        let sel = Space::of(tail).seq_exact(3).filter_collect(|v| {
+            let mut s = v.clone();
+            s.sort();
+            s.dedup();
+            s.len() == v.len()
+        });
+        let ops: Space<&'static str> = Space::of(OPS.to_vec());
+        fams.push(("dictionary k=3, number-like keys".to_string(), sel.product(&ops, move |ks, op| dict_program_text(&ks, op))));
+    }
     if tier == Tier::Thorough {
         fams.push(("dictionary k=4".to_string(), dict_programs(4)));
     }
